@@ -3,6 +3,8 @@ package broker
 import (
 	"context"
 	"fmt"
+	"sort"
+	"strconv"
 	"strings"
 	"sync"
 	"sync/atomic"
@@ -149,7 +151,14 @@ func underWatchdog(run *rt.Run, sc c12Scenario, what string, frame string, f fun
 	case <-time.After(c12Watchdog):
 	}
 	state := func() (string, bool, string) {
-		for _, g := range rt.Goroutines() {
+		gs := rt.Goroutines()
+		// the goroutine of the call itself is the oldest one that matches (goroutines it started come later)
+		sort.Slice(gs, func(i, j int) bool {
+			a, _ := strconv.Atoi(gs[i].ID)
+			b, _ := strconv.Atoi(gs[j].ID)
+			return a < b
+		})
+		for _, g := range gs {
 			if g.Has(frame) && g.Has("underWatchdog") {
 				// report the innermost library frame
 				lib := ""
@@ -286,6 +295,39 @@ func runC12Scenario(run *rt.Run, sc c12Scenario) {
 		if ok {
 			ok = underWatchdog(run, sc, "RemoveNode(unknown)", "eventlogger.(*Broker).RemoveNode", func() { b.RemoveNode(ctx, "nope") })
 		}
+	case "regnode-over":
+		// the pipeline goes away but its nodes stay registered; then the id of the re-entrant node (the gated filter
+		// with its pending groups, or the node that re-enters from Close) is registered again with another node
+		ok = underWatchdog(run, sc, "RemovePipeline", "eventlogger.(*Broker).RemovePipeline", func() { b.RemovePipeline("to", "po") })
+		if ok {
+			ok = underWatchdog(run, sc, "RegisterNode over the re-entrant node", "eventlogger.(*Broker).RegisterNode", func() {
+				b.RegisterNode("x", &plainNode{typ: eventlogger.NodeTypeFilter})
+			})
+		}
+	case "getters":
+		// readers only: the threshold getters and IsAnyPipelineRegistered next to writers that take the write lock
+		ok = underWatchdog(run, sc, "getters next to setters", "underWatchdog", func() {
+			var gw sync.WaitGroup
+			var stop int32
+			for g := 0; g < 3; g++ {
+				gw.Add(1)
+				go func() {
+					defer gw.Done()
+					for atomic.LoadInt32(&stop) == 0 {
+						b.SuccessThreshold("to")
+						b.SuccessThresholdSinks("to")
+						b.IsAnyPipelineRegistered("to")
+					}
+				}()
+			}
+			for k := 0; k < 400; k++ {
+				b.SetSuccessThreshold("to", k%2)
+				b.SetSuccessThresholdSinks("to", 0)
+				b.RegisterNode(eventlogger.NodeID(fmt.Sprintf("gw-%d", k%4)), &plainNode{typ: eventlogger.NodeTypeFilter})
+			}
+			atomic.StoreInt32(&stop, 1)
+			gw.Wait()
+		})
 	case "failed-calls":
 		// failing calls of every kind, then the probe below
 		ok = underWatchdog(run, sc, "failing calls", "underWatchdog", func() {
@@ -355,8 +397,10 @@ func TestC12(t *testing.T) {
 			c12Scenario{Op: "reopen", Callback: "process", Writer: w},
 			c12Scenario{Op: "send", Callback: "close", Writer: w},
 		)
+		scs = append(scs, c12Scenario{Op: "regnode-over", Callback: "close", Writer: w}, c12Scenario{Op: "getters", Callback: "none", Writer: w})
 		for p := 0; p <= 3; p++ {
 			scs = append(scs,
+				c12Scenario{Op: "regnode-over", Callback: "gated-close", Writer: w, Pending: p},
 				c12Scenario{Op: "rmpipenodes", Callback: "gated-close", Writer: w, Pending: p},
 				c12Scenario{Op: "rmnode", Callback: "gated-close", Writer: w, Pending: p},
 				c12Scenario{Op: "send", Callback: "gated-expire", Writer: w, Pending: p},
